@@ -156,6 +156,8 @@ type Input struct {
 	From2   *dmodel.Model // second schema of the current realm (nil: single-schema input)
 	To2     *dmodel.Model // second schema of the desired realm
 	Realm   bool          // diff with RealmDiff on realms instead of SchemaDiff
+	RawFrom string        // hand written (multi-schema) HCL document evaluated as the current realm
+	RawTo   string        // … as the desired realm (Realm inputs; see rawdocs.go)
 	Scoped  bool          // plan with an empty schema qualifier (plan scoped to the connected schema)
 	Indent  string        // PlanOptions.Indent
 	Edits   []string      // ids of the edit walk From -> To (documentation only)
